@@ -702,6 +702,13 @@ impl LpgStore {
             drop(nodes); // Release lock before removing properties
             drop(index);
             drop(node_labels);
+            // Take the node out of every property index before its values are dropped,
+            // otherwise index lookups keep returning the deleted node.
+            let indexed_keys: Vec<PropertyKey> =
+                self.property_indexes.read().keys().cloned().collect();
+            for key in &indexed_keys {
+                self.update_property_index_on_remove(id, key);
+            }
             self.node_properties.remove_all(id);
 
             // Note: Caller should use delete_node_edges() first if detach is needed
